@@ -488,3 +488,61 @@ def gen_C05(rng, count, tier):
 
 def gen_C06(rng, count, tier):
     return gen_route(rng, count, 0.6)
+
+
+# ------------------------------------------------------------------------------------ C09
+
+import base64
+
+USERS = [b"alice", b"Alice", b"al", b"bob", b"a:b", b"", b"user", b"caf\xc3\xa9", b"x y"]
+PASSES = [b"secret", b"Secret", b"sec", b"", b"p:w", b"pass", b"pa ss", b"\xc3\xa9\xc3\xa9", b"secret1"]
+
+
+def gen_C09(rng, count, tier):
+    for i in range(count):
+        table = []
+        for _ in range(rng.randrange(0, 5)):
+            u = pick(rng, USERS)
+            if b":" in u:
+                u = u.replace(b":", b"")
+            table.append((u, pick(rng, PASSES)))
+        realm = pick(rng, [b"r", b"My Realm", b"", b"caf\xc3\xa9", b"a\"b"])
+        k = rng.randrange(16)
+        u, p = (pick(rng, table) if table and rng.random() < 0.8 else (pick(rng, USERS), pick(rng, PASSES)))
+        payload = u + b":" + p
+        if k == 1: payload = u + b":" + p[:-1]                         # prefix password
+        elif k == 2: payload = u + b":" + p.swapcase()
+        elif k == 3: payload = u + b":"                                # empty password
+        elif k == 4: payload = u + p                                   # no colon
+        elif k == 5: payload = u + b":" + p + b"\x00junk"              # NUL
+        elif k == 6: payload = b"\xef\xbb\xbf" + u + b":" + p          # BOM
+        elif k == 7: payload = u + b"\x00x:" + p
+        elif k == 8 and table: payload = u + b":" + pick(rng, table)[1]  # other user's password
+        elif k == 9: payload = u.upper() + b":" + p
+        elif k == 10: payload = u + b":" + p + b":" + p
+        elif k == 11: payload = u + b":" + p + b"\xff"
+        tok = base64.b64encode(payload)
+        scheme = pick(rng, [b"Basic", b"Basic", b"Basic", b"basic", b"BASIC", b"bAsIc", b"Bearer", b"Basi", b"Basicx", b""])
+        sep = pick(rng, [b" ", b" ", b" ", b" ", b"  ", b"\t", b""])
+        m = rng.randrange(12)
+        if m == 0: tok = tok.rstrip(b"=")
+        elif m == 1: tok = tok[:3] + b"*" + tok[3:]                    # junk inside the token
+        elif m == 2: tok = tok + b" "                                  # trailing space (trimmed by the parser)
+        elif m == 3: tok = tok + b" x"
+        elif m == 4: tok = tok[:5] + b" " + tok[5:]
+        elif m == 5: tok = b"=" + tok
+        elif m == 6: tok = bytes(rng.randrange(33, 127) for _ in range(rng.randrange(0, 12)))
+        val = scheme + sep + tok
+        r = rng.random()
+        if r < 0.06:
+            lines = []
+        elif r < 0.12:
+            lines = [b"Authorization: " + val, b"authorization: Basic " + base64.b64encode(b"nobody:x")]
+        elif r < 0.16:
+            lines = [b"Authorization: Basic " + base64.b64encode(b"nobody:x"), b"AUTHORIZATION:" + val]
+        else:
+            lines = [pick(rng, [b"Authorization", b"authorization"]) + b": " + val]
+        head = b"GET / HTTP/1.1" + b"".join(b"\r\n" + l for l in lines)
+        head = head.replace(b"\r\n\r\n", b"\r\n")
+        toks = ["cred:%s:%s" % (hx(a), hx(b2)) for a, b2 in table] + ["realm:" + hx(realm), "head:" + hx(head)]
+        yield ("auth", " ".join(toks))
